@@ -53,6 +53,7 @@ type LoopContract struct {
 	Assigns    []ast.Expr
 	AssignsSrc []string
 	Unfold     []ast.Expr
+	Uses       []ast.Expr // lemma instances assumed at the back edge and at loop exits
 }
 
 type FuncContract struct {
@@ -76,6 +77,7 @@ type FuncContract struct {
 	NoInline bool
 	Trusted  bool
 	Watches  []WatchDef
+	Uses     []ast.Expr // lemma instances assumed at every return (axiom schemas instantiated by hand)
 }
 
 // WatchDef: a term whose model value is reported with counterexamples
@@ -317,6 +319,12 @@ func (c *Contracts) parseFile(file string) error {
 				} else {
 					cur.Ghosts = append(cur.Ghosts, LetDef{name, e, src})
 				}
+			case "use":
+				e, err := parseExprSrc(rest)
+				if err != nil {
+					return fail("%v", err)
+				}
+				cur.Uses = append(cur.Uses, e)
 			case "watch", "watchseq":
 				k := strings.Index(rest, "=")
 				if k < 0 {
@@ -435,6 +443,12 @@ func (c *Contracts) parseFile(file string) error {
 					}
 					lc.Assigns = append(lc.Assigns, es...)
 					lc.AssignsSrc = append(lc.AssignsSrc, srcs...)
+				case "use":
+					e, err := parseExprSrc(r3)
+					if err != nil {
+						return fail("%v", err)
+					}
+					lc.Uses = append(lc.Uses, e)
 				case "unfold":
 					for _, u := range strings.Split(r3, ";") {
 						e, err := parseExprSrc(strings.TrimSpace(u))
